@@ -195,7 +195,8 @@ Definition check_doc (prop : Z) (inp impl : sx) : sx :=
           let cls := Z.min 3 (Z.of_nat (length runs)) + 4 * Z.min 3 (Z.of_nat (length e2es))
                      + (if status =? 0 then 0 else 16) + (if f_rdns fl then 32 else 0) + (if f_skip_private fl then 64 else 0) in
           let spec_fail : list Z :=
-            if (status =? 0) && (match o with None => true | Some _ => false end) then [99]
+            if (prop =? 16) && (status =? 2) then [16; 7]          (* the finished document does not serialise to JSON at all *)
+            else if (status =? 0) && (match o with None => true | Some _ => false end) then [99]
             else if prop =? 15 then (if c15_spec runs e2es status found (negb (resnil =? 0)) o then [] else [15])
             else match o with
                  | None => []
